@@ -134,9 +134,10 @@ func fieldOf(msg []byte, h *hello.Hello, off int) string {
 func TestC02(t *testing.T) {
 	rec := ev.Get("C02")
 	thorough := os.Getenv("VERIF_TIER") == "thorough"
-	rec.Rule("valid sealed tuples (C03 generator); per tuple: positive control, then single-bit flips of the ClientHello message body (quick: 96 sampled bits; thorough: every bit), header flips (tolerant), and the substitutions wrong key (same/other id), wrong info (config differing in public name / suites / id with the same private key), suite named != suite used, wrong config id, enc/payload truncated/extended/swapped, AAD over a different session id. Oracle: never accepted; fall-back byte-exact when the mutated message is still well-formed. distinct = (hello hash, mutation); every mutation is non-trivial")
+	rec.Rule("valid sealed tuples (C03 generator); per tuple: positive control, then single-bit flips of the ClientHello message body (quick: 96 sampled bits; thorough: every bit), header flips (tolerant), and the substitutions wrong key (same/other id), wrong info (config differing in public name / suites / id with the same private key), suite named != suite used, wrong config id, enc/payload truncated/extended/swapped, AAD over a different session id, and length-consistent structural alterations (bytes appended inside the ECH extension, extension added/removed/grown/swapped, cipher suite, session id, compression method changed). Oracle: never accepted; fall-back byte-exact when the mutated message is still well-formed. distinct = (hello hash, mutation); every mutation is non-trivial")
 	rec.Mandatory("flip:random", "flip:session_id", "flip:cipher_suites", "flip:ext_header", "flip:sni_body", "flip:ech_suite", "flip:ech_config_id", "flip:ech_enc", "flip:ech_payload", "flip:versions_body",
-		"sub:wrong_key_same_id", "sub:wrong_key_other_id", "sub:wrong_info_public_name", "sub:wrong_info_suites", "sub:suite_mismatch", "sub:wrong_config_id", "sub:enc_truncated", "sub:payload_truncated", "sub:payload_extended", "sub:payload_swapped", "sub:aad_other_sid", "sub:suite_not_offered", "sub:wrong_config_id_sealed")
+		"sub:wrong_key_same_id", "sub:wrong_key_other_id", "sub:wrong_info_public_name", "sub:wrong_info_suites", "sub:suite_mismatch", "sub:wrong_config_id", "sub:enc_truncated", "sub:payload_truncated", "sub:payload_extended", "sub:payload_swapped", "sub:aad_other_sid", "sub:suite_not_offered", "sub:wrong_config_id_sealed",
+		"struct:ech_ext_trailing_bytes", "struct:extension_added", "struct:extensions_swapped", "struct:extension_removed", "struct:extension_grown", "struct:cipher_suite_appended", "struct:session_id_changed", "struct:compression_appended")
 	rapid.Check(t, func(t *rapid.T) {
 		sc := drawSealed(t, false)
 		hh := sha256.Sum256(sc.OuterMsg)
@@ -356,6 +357,90 @@ func TestC02(t *testing.T) {
 				ev.Violation(t, "C02", map[string]any{"keys": keysReplay([]*hello.Key{ck}), "client_stream": hx(hello.Record(22, sc.RecVer, my)), "expect": "accept_exact", "want_inner_msg": hx(sc.WantInner)}, "hello sealed with an offered suite of a two-KDF config is not accepted: %v", err)
 			}
 		}
+		// ---- structural alterations: the hello stays a well-formed ClientHello (all
+		// enclosing lengths are recomputed) but is no longer the one the client sealed
+		alt := func(label, what string, f func(o *hello.Hello) bool) {
+			o := outer.Clone()
+			if !f(o) {
+				return
+			}
+			m := o.Message()
+			if len(m) > 16384 || bytes.Equal(m, sc.OuterMsg) {
+				return
+			}
+			if _, err := hello.ReferenceOpen(sc.Key, m); err == nil {
+				t.Fatalf("harness: reference receiver opens a structurally altered hello (%s)", what)
+			}
+			one(label, what, hello.Record(22, sc.RecVer, m))
+		}
+		ntrail := rapid.IntRange(1, 4).Draw(t, "ech_trailing")
+		alt("struct:ech_ext_trailing_bytes", fmt.Sprintf("%d bytes appended inside the ECH extension after the payload", ntrail), func(o *hello.Hello) bool {
+			o.Exts[ei].Data = append(append([]byte{}, o.Exts[ei].Data...), make([]byte, ntrail)...)
+			return true
+		})
+		alt("struct:ech_ext_trailing_bytes", "a copy of the payload's last byte appended inside the ECH extension", func(o *hello.Hello) bool {
+			d := o.Exts[ei].Data
+			o.Exts[ei].Data = append(append([]byte{}, d...), d[len(d)-1])
+			return true
+		})
+		newType := uint16(0xff00 + rapid.IntRange(2, 0xf0).Draw(t, "new_ext_type"))
+		newPos := uniform(t, "new_ext_pos", len(outer.Exts)+1)
+		alt("struct:extension_added", fmt.Sprintf("an empty extension of type %#x inserted at position %d", newType, newPos), func(o *hello.Hello) bool {
+			if o.Find(newType) >= 0 {
+				return false
+			}
+			if last := len(o.Exts) - 1; last >= 0 && o.Exts[last].Type == hello.ExtPSK && newPos > last {
+				newPos = last
+			}
+			exts := append([]hello.Ext{}, o.Exts[:newPos]...)
+			exts = append(exts, hello.Ext{Type: newType})
+			o.Exts = append(exts, o.Exts[newPos:]...)
+			return true
+		})
+		if len(outer.Exts) >= 2 {
+			sw := uniform(t, "swap_pos", len(outer.Exts)-1)
+			alt("struct:extensions_swapped", fmt.Sprintf("extensions %d and %d exchanged", sw, sw+1), func(o *hello.Hello) bool {
+				if o.Exts[sw+1].Type == hello.ExtPSK {
+					return false
+				}
+				o.Exts[sw], o.Exts[sw+1] = o.Exts[sw+1], o.Exts[sw]
+				return true
+			})
+			rm := uniform(t, "remove_pos", len(outer.Exts))
+			alt("struct:extension_removed", fmt.Sprintf("extension %d removed", rm), func(o *hello.Hello) bool {
+				if rm == ei || o.Exts[rm].Type == hello.ExtSNI || o.Exts[rm].Type == hello.ExtSupportedVersions {
+					return false
+				}
+				o.Exts = append(append([]hello.Ext{}, o.Exts[:rm]...), o.Exts[rm+1:]...)
+				return true
+			})
+			gr := uniform(t, "grow_pos", len(outer.Exts))
+			alt("struct:extension_grown", fmt.Sprintf("one byte appended to the body of extension %d", gr), func(o *hello.Hello) bool {
+				if gr == ei {
+					return false
+				}
+				o.Exts[gr].Data = append(append([]byte{}, o.Exts[gr].Data...), 0)
+				return true
+			})
+		}
+		alt("struct:cipher_suite_appended", "a cipher suite appended to the list", func(o *hello.Hello) bool {
+			o.Suites = append(append([]byte{}, o.Suites...), 0x13, 0x01)
+			return true
+		})
+		alt("struct:session_id_changed", "legacy_session_id shortened or extended by one byte", func(o *hello.Hello) bool {
+			if len(o.SessionID) > 0 && rapid.Bool().Draw(t, "sid_shorter") {
+				o.SessionID = o.SessionID[:len(o.SessionID)-1]
+			} else if len(o.SessionID) < 32 {
+				o.SessionID = append(append([]byte{}, o.SessionID...), 0)
+			} else {
+				return false
+			}
+			return true
+		})
+		alt("struct:compression_appended", "a compression method appended", func(o *hello.Hello) bool {
+			o.Compression = append(append([]byte{}, o.Compression...), 1)
+			return true
+		})
 		// AAD without zeroed payload (client forgot to zero = AAD includes garbage)
 		sl4, _ := hello.NewSealer(sc.Key.Config, sc.Key.Priv.PublicKey().Bytes(), sc.Suite, sc.Key.ID)
 		o4 := sc.Tuple.Outer.Clone()
